@@ -534,6 +534,9 @@ func run(c *core.Ctx) {
 
 var histOps = []string{"edit:a", "edit:b", "extra:b", "run:all", "run:force", "run:subset-c"}
 
+// with operations on gengo.sum itself (a shorter bound keeps the number of child processes down)
+var histOpsSum = []string{"edit:a", "rmsum", "sum:swap", "run:all", "run:force"}
+
 // syncTree makes dir hold exactly want, rewriting changed files IN PLACE.
 func syncTree(dir string, want pipe.Tree) error {
 	have, err := pipe.ReadTree(dir)
@@ -616,6 +619,13 @@ func checkHistory(c *core.Ctx, cs Case) {
 func runHistories(c *core.Ctx, maxLen int) {
 	c.Bound("same_process_history_ops", histOps)
 	c.Bound("same_process_history_max_len", maxLen)
+	c.Bound("same_process_history_ops_with_sum_file_operations", histOpsSum)
+	c.Bound("same_process_history_with_sum_file_operations_len", maxLen)
+	exploreHistories(c, histOps, maxLen)
+	exploreHistories(c, histOpsSum, maxLen)
+}
+
+func exploreHistories(c *core.Ctx, histOps []string, maxLen int) {
 	core.Explore(c, core.ExploreOpts{Bound: -1}, func(ch *core.Chooser, _ bool) {
 		var ops []string
 		runs := 0
